@@ -236,8 +236,10 @@ def run(ctx):
     rng = ctx.rng
     n = 260 if ctx.quick else 4000
     cases = corpus_cases(table) + [gen_case(rng, table) for _ in range(n)]
-    out = ctx.run_impl("c15_impl", {"cases": [impl_payload(c) for c in cases]})
+    real = real_cases(ctx, table)
+    out = ctx.run_impl("c15_impl", {"cases": [impl_payload(c) for c in cases], "real": real})
     res = out["results"]
+    audit_real(ctx, real, out.get("real", []), table)
     ctx.log("implementation ran", len(cases), "cases")
     # the implementation's own reading of the population column must be the table's (ties csv/Decimal to pandas)
     for (c, nm, p), (c2, nm2, p2) in zip(table, out["table"]):
@@ -288,6 +290,74 @@ def run(ctx):
     for c, r in list(zip(cases, res))[len(corpus_cases(table)):][:3]:
         ctx.sample({"list": c["list"][:12], "scenario_option": c["scenario_option"], "overrides": c["overrides"],
                     "observed": {k: (v if k != "keys" and k != "calls" else v[:4]) for k, v in r.items() if k not in ("world", "run_skip")}})
+
+
+REAL_OPTION = {
+    "title": "verif", "scale": "country", "seasonality": "country", "grasses": "country_nuclear_winter",
+    "crop_disruption": "country_nuclear_winter", "scenario": "no_resilient_foods", "fish": "nuclear_winter",
+    "waste": "baseline_in_country", "nutrition": "catastrophe", "intake_constraints": "enabled",
+    "stored_food": "baseline", "ratio_stocks_untouched": "zero", "shutoff": "long_delayed_shutoff",
+    "cull": "do_eat_culled", "fat": "not_required", "protein": "not_required",
+    "meat_strategy": "reduce_breeding", "NMONTHS": 120,
+}
+REAL_POOL = ["USA", "IND", "BRA", "NZL", "JPN", "NGA", "FRA", "ARG", "EGY", "MNG", "CHE", "KEN"]
+
+
+def real_cases(ctx, table):
+    """un-stubbed multi-country runs (real optimiser): one inclusion list; thorough adds an exclusion list"""
+    rng = ctx.rng
+    codes = [t[0] for t in table]
+    inc = rng.sample(REAL_POOL, 3)
+    cases = [{"list": inc, "scenario_option": dict(REAL_OPTION)}]
+    if not ctx.quick:
+        keep = set(rng.sample(REAL_POOL, 4))
+        cases.append({"list": ["!" + c for c in codes if c not in keep],
+                      "scenario_option": dict(REAL_OPTION, grasses="baseline", crop_disruption="zero", fish="baseline",
+                                              nutrition="baseline", shutoff="continued", meat_strategy="baseline_breeding",
+                                              ratio_stocks_untouched="baseline")})
+    return cases
+
+
+def audit_real(ctx, cases, results, table):
+    codes = [t[0] for t in table]
+    names = {t[0]: t[1] for t in table}
+    info = []
+    for case, r in zip(cases, results):
+        rep = {"kind": "counterexample", "call": "run_model_no_trade (real optimiser)", "list": case["list"][:12],
+               "scenario_option": case["scenario_option"], "observed": r}
+        if "err" in r:
+            ctx.violation("C15:real-run-failed@run_model_no_trade", f"un-stubbed run failed: {r['err']} {r.get('msg', '')[:200]}", rep)
+            continue
+        exp, _ = expected_selection(case["list"], codes)
+        ran = [x[0] for x in r["rec"]]
+        ok = True
+        if set(ran) != exp or len(ran) != len(set(ran)):
+            ok = False
+            ctx.violation("C15:selection@get_countries_to_run_and_skip", f"real run: ran {ran}, expected {sorted(exp)}", rep)
+        good = [x for x in r["rec"] if x[3] != "nan"]
+        if r["keys"] != [names[x[0]] for x in good]:
+            ok = False
+            ctx.violation("C15:once@run_model_no_trade", f"real run: result keys {r['keys']} for countries {ran}", rep)
+        np_ = sum(Fraction(x[2]) for x in good)
+        nf_ = sum(Fraction(x[2]) * min(Fraction(1), Fraction(x[3])) for x in good)
+        if abs(Fraction(r["net_pop"]) - np_) > Fraction(1, 10 ** 9) * max(1, np_) or \
+                abs(Fraction(r["net_fed"]) - nf_) > Fraction(1, 10 ** 9) * max(1, nf_):
+            ok = False
+            ctx.violation("C15:value@run_model_no_trade", f"real run: totals {r['net_pop']}, {r['net_fed']} != {float(np_)}, {float(nf_)}", rep)
+        for x in good:
+            pf = r["percent_people_fed"].get(names[x[0]])
+            if pf == "nan" or abs(pf / 100 - x[3]) > 1e-12 * max(1, abs(x[3])):
+                ok = False
+                ctx.violation("C15:value@run_optimizer_for_country", f"real run: {x[0]} ratio {x[3]} but percent_people_fed {pf}", rep)
+        if r["net_pop"] > 0 and not 0 <= r["net_fed"] / r["net_pop"] <= 1:
+            ok = False
+            ctx.violation("C15:range@run_model_no_trade", f"real run: aggregate {r['net_fed'] / r['net_pop']}", rep)
+        ctx.count(("real", case["list"], sorted(case["scenario_option"].items())), nontrivial=ok and len(good) > 0)
+        ctx.traces += 1
+        info.append({"countries": ran, "ratios": [x[3] for x in r["rec"]], "net_pop": r["net_pop"], "net_fed": r["net_fed"]})
+    ctx.notes["real_runs"] = info
+    if info:
+        ctx.sample({"real_run": info[0]})
 
 
 def corpus_cases(table):
